@@ -4,7 +4,7 @@
 From Coq Require Import String.
 From Verif Require Import Lib.Base Lib.Dyadic Model.Ast Model.Instr Model.Compiler Model.Prims Model.VM
   Model.Encode Model.Verifier Model.Decode Model.PrimsToy Gen.Consts Gen.Panics
-  Proofs.VerifierBase Proofs.VerifierSound Proofs.VerifierProgram Proofs.VerifierDepth Proofs.VerifierPanics Proofs.Decode.
+  Proofs.VerifierBase Proofs.VerifierSound Proofs.VerifierProgram Proofs.VerifierDepth Proofs.VerifierPanics Proofs.Decode Proofs.VerifierShape.
 From Verif Require Import Properties.C01.
 
 (* ---- 1. the bytecode verifier is sound ------------------------------------------------- *)
@@ -95,6 +95,17 @@ Theorem C02_decode_inverts_compiler_encoding : forall p c,
   forallb scopes_encodable c = true -> decode (fst (enc_code p c)) = Some (abs_code p c).
 Proof. exact decode_enc_code. Qed.
 Print Assumptions C02_decode_inverts_compiler_encoding.
+
+(* the verdict does not depend on constants: the code decoded from the words the compiler model
+   emits passes the check exactly when the model's own code does (so, with C01's word-for-word
+   correspondence, a passed check on the real words of an explored program is a passed check on
+   the code Model/Compiler.v produces for it) *)
+Theorem C02_check_decoded_iff_encoded : forall FT nl inf d0 dend p c,
+  forallb scopes_encodable c = true ->
+  exists c', decode (fst (enc_code p c)) = Some c' /\
+             check_code FT nl inf d0 dend c' = check_code FT nl inf d0 dend c.
+Proof. exact check_decoded_iff_encoded. Qed.
+Print Assumptions C02_check_decoded_iff_encoded.
 
 (* every opcode of internal/compiler/opcodes.go (regenerated table) has exactly one decoder entry *)
 Theorem C02_opcode_table_complete : op_tab_ok = true.
